@@ -33,6 +33,14 @@ class Resource:
         self.oneway = False
         self.track_stamp = None     # set for resources tracked from a one-way call thread
 
+    def __hash__(self):
+        # the daemon keeps tracked resources in a (weak) set: with the default address-based hash the order in which it walks
+        # them would differ from process to process, and with it what a changed tree does - a replay must not depend on that
+        return (self.conn * 1009 + self.idx) * 2654435761 % (1 << 61)
+
+    def __eq__(self, other):
+        return self is other
+
     def close(self):
         self.closed += 1
         if self.close_stamp is None and _Run.cur is not None:
